@@ -221,10 +221,29 @@ func VerifC05DiskHistory() {
 		verifCover(true, "c05.disk.snapshot-written")
 	}
 
+	// a reader that stays open while the log grows and the collector runs: on the snapshot (if
+	// any) or on the first log segment; what it references must not be collected under it
+	hold := verifChoose("hold", 3)
+	var heldRdb, heldAof *Reader
+	if hold == 1 && m.rdbOn {
+		rd, err := s.GetReader(m.base-1, false)
+		verifAssert(err == nil && !rd.IsAof(), "C05.disk.valid-offset-but-no-reader")
+		if err == nil {
+			heldRdb = rd
+		}
+	}
+
 	chunks, all := verifChunks("aof", K, C)
 	src := &verifSrc{chunks: chunks}
 	src.hook = func(i int) {
 		m.aof = all[:verifPrefixLen(chunks, i)]
+		if hold == 2 && heldAof == nil && i == 1 {
+			rd, err := s.GetReader(m.base, false)
+			verifAssert(err == nil && rd.IsAof(), "C05.disk.valid-offset-but-no-reader")
+			if err == nil {
+				heldAof = rd
+			}
+		}
 		collect()
 		verifDiskCheckAll(s, m)
 	}
@@ -238,6 +257,27 @@ func VerifC05DiskHistory() {
 	m.aof = all
 	collect()
 	verifDiskCheckAll(s, m)
+	if heldRdb != nil {
+		got := verifReadRdb(heldRdb.rdb)
+		verifAssert(len(got) == len(m.rdb), "C05.disk.held-snapshot-reader-length")
+		for i := 0; i < len(got) && i < len(m.rdb); i++ {
+			verifAssert(got[i] == m.rdb[i], "C05.disk.held-snapshot-reader-bytes")
+		}
+		heldRdb.rdb.Close()
+		heldRdb.Close()
+		verifCover(gc, "c05.disk.held-snapshot-during-collection")
+	}
+	if heldAof != nil {
+		got, rerr := verifReadAof(heldAof.aof, len(all))
+		verifAssert(rerr == nil, "C05.disk.held-reader-error")
+		verifAssert(len(got) == len(all), "C05.disk.held-reader-length")
+		for i := 0; i < len(got) && i < len(all); i++ {
+			verifAssert(got[i] == all[i], "C05.disk.held-reader-bytes")
+		}
+		heldAof.aof.Close()
+		heldAof.Close()
+		verifCover(gc, "c05.disk.held-reader-during-collection")
+	}
 	verifReach("c05.disk.history-end")
 }
 
@@ -439,4 +479,48 @@ func VerifC08Corrupt() {
 	_, gerr := s2.GetReader(base, true)
 	verifAssert(gerr != nil, "C08.altered-segment-served")
 	verifReach("c08.corrupt-end")
+}
+
+// VerifC08CorruptLater: the altered segment is not the one the reader is opened on but one it
+// reaches by following the rotation: with checksum verification its bytes are never served.
+func VerifC08CorruptLater() {
+	verifFS = verifNewFS()
+	verifFS.add(verifBaseDir, &verifNode{dir: true})
+	n := verifParam("SEGBYTES", 2)
+	base := int64(100)
+	s := verifNewStorer(int64(n), 0)
+	s.SetRunId("r1")
+	c0 := verifBytes("seg0", n+1)
+	c1 := verifBytes("seg1", n+1)
+	w, err := s.GetAofWritter(&verifSrc{chunks: [][]byte{c0, c1, verifBytes("seg2", 1)}}, base)
+	verifAssert(err == nil, "C08.new-aof-writer")
+	w.Start()
+	w.Wait(context.Background())
+	src := append(append([]byte{}, c0...), c1...)
+	path1 := aofFilePath(s.dir, base+int64(n+1))
+	node, ok := verifFS.nodes[path1]
+	verifAssert(ok && len(node.data) == headerSize+n+1, "C08.corrupt.setup")
+	if !ok {
+		return
+	}
+	i := headerSize + verifRange("idx", 0, n)
+	nv := verifU8("newval")
+	verifAssume(nv != node.data[i])
+	node.data[i] = nv
+
+	s2 := verifNewStorer(int64(n), 0)
+	s2.SetRunId("r1")
+	rd, gerr := s2.GetReader(base, true)
+	verifAssert(gerr == nil, "C08.intact-segment-refused")
+	if gerr != nil {
+		return
+	}
+	got, _ := verifReadAof(rd.aof, len(src)+1)
+	verifAssert(len(got) >= n+1, "C08.intact-segment-refused")
+	for k := 0; k < len(got); k++ {
+		verifAssert(k < n+1 && got[k] == src[k], "C08.altered-segment-served")
+	}
+	rd.aof.Close()
+	rd.Close()
+	verifReach("c08.corrupt-later-end")
 }
